@@ -269,13 +269,13 @@ func (ev *evaluator) words(line string) ([]string, bool) {
 // ---- conditions
 
 func (ev *evaluator) cond(name string) (val bool, known bool, isErr bool) {
-	if v, ok := hostConds[name]; ok {
+	// the predefined conditions, by the independent reading of doc.go (conds.go)
+	if v, ok := indepCond(name); ok {
 		return v, true, false
 	}
-	for _, n := range hostCondNames {
-		if n == name {
-			return false, false, false // not measured
-		}
+	switch {
+	case name == "short" || name == "net" || name == "link" || name == "symlink" || goVersionName.MatchString(name):
+		return false, false, false // predefined, but this reading cannot tell its value on this host
 	}
 	if strings.HasPrefix(name, "exec:") {
 		if ev.g.pathSet {
@@ -311,7 +311,13 @@ func (ev *evaluator) cond(name string) (val bool, known bool, isErr bool) {
 }
 
 // the only condition names the generator uses for Params.Condition (none is a GOOS/GOARCH name)
-var customCondNames = map[string]bool{"foo": true, "bar": true, "baz": true, "errc": true, "qux": true, "nosuchcond": true}
+var customCondNames = func() map[string]bool {
+	m := map[string]bool{"foo": true, "bar": true, "baz": true, "errc": true, "qux": true, "nosuchcond": true}
+	for _, n := range nearCondNames {
+		m[n] = true // they look like predefined conditions and are not
+	}
+	return m
+}()
 
 // commands that doc.go marks with [!]
 var negatable = map[string]bool{"cmp": true, "cmpenv": true, "exec": true, "exists": true, "grep": true, "stderr": true, "stdout": true, "ttyout": true}
@@ -922,6 +928,17 @@ func (ev *evaluator) helper(a []string, bg bool) (code int, out, errS string, sl
 			return usage()
 		}
 		return n, "", "", false, true
+	case "ret":
+		// the helper's function returns this integer to RunMain, which exits with it: the status
+		// the operating system reports is the integer modulo 256 (-1 is 255, 256 is 0)
+		if len(r) != 1 || !regexp.MustCompile(`^-?[0-9]+$`).MatchString(r[0]) {
+			return usage()
+		}
+		n, err := strconv.Atoi(r[0])
+		if err != nil || n > 1000000 || n < -1000000 {
+			return usage()
+		}
+		return ((n % 256) + 256) % 256, "", "", false, true
 	case "echo":
 		return 0, strings.Join(r, " ") + "\n", "", false, true
 	case "echoerr":
@@ -1032,11 +1049,38 @@ func (ev *evaluator) exec(neg bool, args []string) lineRes {
 	isBg := bgSpec.MatchString(last)
 	prog := args[0]
 	var found bool
-	switch prog {
-	case helperName:
+	switch {
+	case prog == helperName:
 		found = true
-	case "nosuchprog-verif":
+	case prog == "nosuchprog-verif":
 		found = false
+	case strings.Contains(prog, "/"):
+		// a path: no lookup.  Nothing the scripts can create with the helper is a program that
+		// can be STARTED (a text file with or without execute bits, a directory, a script whose
+		// interpreter does not exist, a name that is not there): the command fails before it
+		// runs.  doc.go: the input given with `stdin` is for "the next exec command" -- this is
+		// that command, so the input is gone afterwards, and so is the output of the previous one.
+		if !g.dirs[g.cwd] {
+			return rUnknown
+		}
+		p, ok := g.abs(strings.TrimPrefix(prog, "./"))
+		if !ok {
+			return rUnknown
+		}
+		if data, isFile := g.files[p]; isFile && strings.HasPrefix(data, "#!") && !strings.HasPrefix(data, "#!/nonexistent-verif/") {
+			return rUnknown // might be a script that runs
+		}
+		if isBg {
+			name := strings.TrimSuffix(strings.TrimPrefix(last, "&"), "&")
+			if _, q := ev.findBg(name); q != nil {
+				return rFail
+			}
+		}
+		g.out, g.err, g.stdin = "", "", ""
+		if neg {
+			return rOK
+		}
+		return rFail
 	default:
 		return rUnknown
 	}
@@ -1109,14 +1153,21 @@ func evaluate(c *Case) *Expect {
 	ex := &Expect{Known: true}
 	unknown := func(why string) *Expect { return &Expect{Known: false, Why: why, Final: g} }
 	seen := map[string]bool{}
+	setupFails := func(why string) *Expect {
+		return &Expect{Known: true, Verdict: "fail", FailLine: 0, FailLines: []int{0}, Why: why, Final: g, Ended: true, SkipTree: true}
+	}
 	for _, f := range c.Files {
-		if !simplePath.MatchString(f.Name) {
+		p, st := entryLocation(f.Name)
+		switch st {
+		case locUnknown:
 			return unknown("archive entry name " + f.Name)
+		case locOutside:
+			// doc.go: the files are unpacked below $WORK; a name that leads out of it cannot be
+			return setupFails("entry name leaves the work directory: " + f.Name)
 		}
-		p := absWork + "/" + f.Name
 		if seen[p] {
 			if c.Uniq {
-				return &Expect{Known: true, Verdict: "fail", FailLine: 0, FailLines: []int{0}, Why: "duplicate entry", Final: g, Ended: true, SkipTree: true}
+				return setupFails("duplicate entry")
 			}
 		}
 		seen[p] = true
@@ -1124,8 +1175,9 @@ func evaluate(c *Case) *Expect {
 		if data != "" && !strings.HasSuffix(data, "\n") {
 			data += "\n"
 		}
-		if !g.mkdirAll(parentOf(p)) || g.dirs[p] {
-			return unknown("archive layout")
+		if p == absWork || g.dirs[p] || !g.mkdirAll(parentOf(p)) {
+			// the place is taken by a directory, or a parent is a file: the entry cannot be written
+			return setupFails("archive layout")
 		}
 		g.files[p] = data
 		g.modes[p] = 0o644
@@ -1179,4 +1231,103 @@ loop:
 	}
 	sort.Strings(ex.Tree)
 	return ex
+}
+
+// ---- where an archive entry is unpacked
+
+type locStatus int
+
+const (
+	locOK locStatus = iota
+	locOutside
+	locUnknown
+)
+
+// the variables doc.go says every script starts with, as far as their values are the same
+// everywhere (Unix): $WORK, $HOME=/no-home, $TMPDIR=$WORK/.tmp, $devnull, ${/}, ${:}, ${$}, $exe
+var initialVars = map[string]string{"WORK": absWork, "HOME": "/no-home", "TMPDIR": absWork + "/.tmp", "devnull": "/dev/null",
+	"/": "/", ":": ":", "$": "$", "exe": "", "GOTRACEBACK": "system"}
+
+// entryLocation: the evaluator's path of the file an archive entry named `name` becomes.  The name
+// may use the initial variables ($WORK/golden/out.txt as in doc.go, tool$exe.err, golden${/}x) and
+// need not be written canonically (./x, a//b, a/./b, a/../a/x): it is expanded, taken relative to
+// $WORK and cleaned; a location that is not $WORK or below it is refused by setup.
+func entryLocation(name string) (string, locStatus) {
+	var b strings.Builder
+	for i := 0; i < len(name); {
+		c := name[i]
+		if c != '$' {
+			b.WriteByte(c)
+			i++
+			continue
+		}
+		// $NAME or ${NAME}: only the forms whose meaning is beyond doubt
+		j := i + 1
+		if j >= len(name) {
+			return "", locUnknown
+		}
+		var key string
+		if name[j] == '{' {
+			k := strings.IndexByte(name[j:], '}')
+			if k < 0 {
+				return "", locUnknown
+			}
+			key = name[j+1 : j+k]
+			i = j + k + 1
+		} else {
+			k := j
+			for k < len(name) && (name[k] == '_' || name[k] >= 'a' && name[k] <= 'z' || name[k] >= 'A' && name[k] <= 'Z' || name[k] >= '0' && name[k] <= '9' && k > j) {
+				k++
+			}
+			if k == j {
+				return "", locUnknown
+			}
+			key = name[j:k]
+			i = k
+		}
+		v, ok := initialVars[key]
+		if !ok {
+			return "", locUnknown
+		}
+		b.WriteString(v)
+	}
+	x := b.String()
+	if x == "" || strings.HasSuffix(x, "/") || strings.ContainsAny(x, "\x00\\") {
+		return "", locUnknown
+	}
+	if strings.HasPrefix(x, "/") {
+		// an absolute name is used as it is: "." and ".." elements in it are resolved by the
+		// file system (the directories they go through must exist), which is not modelled here
+		for _, el := range strings.Split(x[1:], "/") {
+			if el == "" || el == "." || el == ".." {
+				return "", locUnknown
+			}
+		}
+	} else {
+		x = absWork + "/" + x // relative names are joined to $WORK and cleaned lexically
+	}
+	// lexical cleaning: ".", "" and ".." elements
+	var out []string
+	for _, el := range strings.Split(x, "/") {
+		switch el {
+		case "", ".":
+		case "..":
+			if len(out) > 0 {
+				out = out[:len(out)-1]
+			}
+		default:
+			out = append(out, el)
+		}
+	}
+	p := "/" + strings.Join(out, "/")
+	if p == absWork {
+		return p, locOK
+	}
+	if !strings.HasPrefix(p, absWork+"/") {
+		return "", locOutside
+	}
+	if !simplePath.MatchString(p[len(absWork)+1:]) {
+		return "", locUnknown
+	}
+	return p, locOK
 }
